@@ -1,12 +1,13 @@
 From Coq Require Import ZArith List.
 From V Require Import Base.Wire.
-From V Require Check.C12 Check.C10.
+From V Require Check.C12 Check.C10 Check.C13.
 Import ListNotations.
 Open Scope Z_scope.
 
 Definition checker (prop : Z) : option (rd verdict) :=
   if prop =? 12 then Some C12.check
   else if prop =? 10 then Some C10.check
+  else if prop =? 13 then Some C13.check
   else None.
 
 Definition verif_dispatch (prop : Z) (case : list Z) : list Z :=
